@@ -118,7 +118,16 @@ func replayHistoryNoisy(h *recHistory, noisy bool) ([]blockResult, *chain.Chain)
 			defer func() { time.Local = saved }()
 		}
 	}
-	c := chain.New(historyGenesisAt(h.Window, h.Check, h.NumAccounts, h.GenesisUnix))
+	gopts := historyGenesisAt(h.Window, h.Check, h.NumAccounts, h.GenesisUnix)
+	if noisy {
+		// ... and its operator configured it differently: the settings an app.toml / the start flags carry
+		gopts.NodeConfig = map[string]interface{}{
+			"minimum-gas-prices": "0.025ujkl", "pruning": "everything", "halt-height": uint64(0), "halt-time": uint64(0), "min-retain-blocks": uint64(1),
+			"inter-block-cache": true, "index-events": []string{"message.sender"}, "iavl-cache-size": 10, "telemetry.enabled": true, "api.enable": true, "grpc.enable": true,
+			"state-sync.snapshot-interval": uint64(2), "wasm.query_gas_limit": uint64(1000), "wasm.memory_cache_size": uint32(1),
+		}
+	}
+	c := chain.New(gopts)
 	var out []blockResult
 	noise := func(i, j int, raw []byte) {
 		if !noisy {
